@@ -41,15 +41,15 @@ package variables
 
 // (FromMap's view contract is ASSUMED — sync.Map is not modelled — but one structural fact is checked: every
 // entry of the map is stored, also those with an empty value: an explicitly empty value at a higher level must
-// shadow a lower level. fmStored is a scratch ghost set: its state before the call is arbitrary.)
-//@ ghost fmStored map[string]bool
+// shadow a lower level. scratchStored is a scratch ghost set: its state before the call is arbitrary.)
+//@ ghost scratchStored map[string]bool
 //@ func FromMap
-//@   ensures #C10.every-entry-is-stored forall k string :: (k in values) ==> fmStored[k]
+//@   ensures #C10.every-entry-is-stored forall k string :: (k in values) ==> scratchStored[k]
 //@   loop 1 "range values"
-//@     invariant #C10.stored-so-far forall k string :: $seen[k] ==> fmStored[k]
+//@     invariant #C10.stored-so-far forall k string :: $seen[k] ==> scratchStored[k]
 //@   callsite Store
-//@     ghost fmStored[unboxstr(arg0)] = true
-//@   modifies cdom, cval, fmStored
+//@     ghost scratchStored[unboxstr(arg0)] = true
+//@   modifies cdom, cval, scratchStored
 //@   ensures result != nil && fresh(unboxptr(result)) && allocated(unboxptr(result))
 //@   ensures #view forall k string :: (cdom[result][k] <==> (k in values)) && ((k in values) ==> cval[result][k] == boxstr(values[k]))
 //@   ensures #others-untouched forall c Container :: c != result ==> cdom[c] == old(cdom[c]) && cval[c] == old(cval[c])
